@@ -2,6 +2,7 @@ INIT MCInit
 NEXT MCNext
 CONSTANT Fams = {4, 6, 11, 14, 15}
 CONSTANT Faults = 3
+CONSTANT NChunks = 12
 INVARIANT MCCorrect
 INVARIANT MCValueXorError
 INVARIANT MCFaultFaithful
